@@ -299,6 +299,17 @@ def cyc_sccs_series(rng):
     return names, e
 
 
+def cyc_bundle(rng):
+    """two SCCs joined by a bundle of >= 3 parallel inter-SCC edges (all map to ONE edge of the condensation)"""
+    names = pick_names(rng, 6); s, t, a, b, c, d = names
+    e = [(s, a), (a, b), (b, a), (c, d), (d, c), (a, c), (b, d), (a, d), (d, t)]
+    if rng.random() < 0.4:
+        e.append((b, c))
+    if rng.random() < 0.3:
+        e.append((c, t))
+    return names, e
+
+
 def cyc_dag_like(rng):
     nodes, edges = dag_any(rng, 9)
     return nodes, edges
